@@ -1,7 +1,46 @@
 pub mod core;
 pub mod pay;
+pub mod c01;
+pub mod c02;
+pub mod c03;
+pub mod c04;
+pub mod c05;
+pub mod c06;
+pub mod c07;
+pub mod c08;
+pub mod c09;
+pub mod c10;
 pub mod c11;
 pub mod c12;
+pub mod c13;
+pub mod c14;
+pub mod c15;
+pub mod c16;
+pub mod c17;
+pub mod c18;
+pub mod c19;
+pub mod c20;
+pub mod c21;
+pub mod c22;
+pub mod c23;
+pub mod c24;
+pub mod c25;
+pub mod c26;
+pub mod c27;
+pub mod c28;
+pub mod c29;
+pub mod c30;
+pub mod c31;
+pub mod c32;
+pub mod c33;
+pub mod c34;
+pub mod c35;
+pub mod c36;
+pub mod c37;
+pub mod c38;
+pub mod c39;
+pub mod c40;
+pub mod c41;
 
 use crate::core::{Ctx, Report};
 
@@ -10,7 +49,46 @@ pub type CheckFn = fn(&Ctx, &mut Report, Option<&serde_json::Value>);
 /// Registry: property id -> check entry.
 pub fn registry() -> Vec<(&'static str, CheckFn)> {
     vec![
+        ("C01", c01::run as CheckFn),
+        ("C02", c02::run as CheckFn),
+        ("C03", c03::run as CheckFn),
+        ("C04", c04::run as CheckFn),
+        ("C05", c05::run as CheckFn),
+        ("C06", c06::run as CheckFn),
+        ("C07", c07::run as CheckFn),
+        ("C08", c08::run as CheckFn),
+        ("C09", c09::run as CheckFn),
+        ("C10", c10::run as CheckFn),
         ("C11", c11::run as CheckFn),
         ("C12", c12::run as CheckFn),
+        ("C13", c13::run as CheckFn),
+        ("C14", c14::run as CheckFn),
+        ("C15", c15::run as CheckFn),
+        ("C16", c16::run as CheckFn),
+        ("C17", c17::run as CheckFn),
+        ("C18", c18::run as CheckFn),
+        ("C19", c19::run as CheckFn),
+        ("C20", c20::run as CheckFn),
+        ("C21", c21::run as CheckFn),
+        ("C22", c22::run as CheckFn),
+        ("C23", c23::run as CheckFn),
+        ("C24", c24::run as CheckFn),
+        ("C25", c25::run as CheckFn),
+        ("C26", c26::run as CheckFn),
+        ("C27", c27::run as CheckFn),
+        ("C28", c28::run as CheckFn),
+        ("C29", c29::run as CheckFn),
+        ("C30", c30::run as CheckFn),
+        ("C31", c31::run as CheckFn),
+        ("C32", c32::run as CheckFn),
+        ("C33", c33::run as CheckFn),
+        ("C34", c34::run as CheckFn),
+        ("C35", c35::run as CheckFn),
+        ("C36", c36::run as CheckFn),
+        ("C37", c37::run as CheckFn),
+        ("C38", c38::run as CheckFn),
+        ("C39", c39::run as CheckFn),
+        ("C40", c40::run as CheckFn),
+        ("C41", c41::run as CheckFn),
     ]
 }
